@@ -6,6 +6,7 @@ Open Scope list_scope.
 Open Scope N_scope.
 Ltac Zify.zify_post_hook ::= Z.div_mod_to_equations.
 Local Notation length := List.length.
+Local Notation concat := List.concat.
 
 (* ================= words ================= *)
 Lemma enc_word_length e t w : length (enc_word e t w) = sty_size t.
@@ -138,4 +139,388 @@ Lemma find_v1_offsets bin name : forall (ps : vprops) cur,
 Proof.
   induction ps as [|[t n] ps IH]; intros cur; [reflexivity|].
   cbn [scalars map find_v1 offsets_from]. destruct (seqb n name); [reflexivity|]. apply IH.
+Qed.
+
+(* ================= mapR ================= *)
+Lemma mapR_cons {A B} (f : A -> result B) x xs :
+  mapR f (x :: xs) = dor y <- f x; dor ys <- mapR f xs; Ok (y :: ys).
+Proof. reflexivity. Qed.
+
+Lemma mapR_nth {A B} (f : A -> result B) : forall l rows i x,
+  mapR f l = Ok rows -> nth_error l i = Some x -> exists y, nth_error rows i = Some y /\ f x = Ok y.
+Proof.
+  induction l as [|a l IH]; intros rows i x M N; [destruct i; discriminate|].
+  rewrite mapR_cons in M. destruct (f a) as [y|] eqn:Fa; [|discriminate].
+  cbn [rbind] in M. destruct (mapR f l) as [ys|] eqn:Ml; [|discriminate].
+  cbn [rbind] in M. injection M as <-.
+  destruct i as [|i]; cbn [nth_error] in *.
+  - injection N as <-. eauto.
+  - eapply IH; eauto.
+Qed.
+
+Lemma mapR_length {A B} (f : A -> result B) : forall l rows, mapR f l = Ok rows -> length rows = length l.
+Proof.
+  induction l as [|a l IH]; intros rows M; [injection M as <-; reflexivity|].
+  rewrite mapR_cons in M. destruct (f a) as [y|]; [|discriminate].
+  cbn [rbind] in M. destruct (mapR f l) as [ys|] eqn:Ml; [|discriminate].
+  cbn [rbind] in M. injection M as <-. simpl. f_equal. apply IH. reflexivity.
+Qed.
+
+Lemma mapR_map {A B C} (g : A -> B) (f : B -> result C) l : mapR f (map g l) = mapR (fun x => f (g x)) l.
+Proof. induction l as [|a l IH]; [reflexivity|]. cbn [map]. rewrite !mapR_cons, IH. reflexivity. Qed.
+
+(* ================= one reader, one record ================= *)
+(* the reader LoadUnspecifiedProperties / Vector1PropertyReader builds for property [name] *)
+Lemma build_v1_spec bin attr name (ps : vprops) :
+  build_v1 bin attr name (scalars ps) =
+  Ok (option_map (fun '(off, t) => {| b_attr := attr; b_names := [name]; b_offs := [off]; b_ty := t; b_v1 := true |})
+                 (offsets bin ps name)).
+Proof. unfold build_v1, offsets. rewrite find_v1_offsets. reflexivity. Qed.
+
+(* binary: the scalar reader of a declared property returns the float64 image of the record's word *)
+Lemma scalar_reader_bin e attr name (ps : vprops) vals :
+  record_ok ps vals -> In name (names ps) ->
+  exists b t w, build_v1 true attr name (scalars ps) = Ok (Some b) /\ b_attr b = attr /\
+    field_word ps vals name = Some (t, w) /\
+    read_bin_row e b (enc_record_bin e (map fst ps) vals) =
+      (if vertex_ty_ok t then dor v <- mesh_value t w; Ok [v] else Err EDeclared).
+Proof.
+  intros R I. rewrite build_v1_spec.
+  destruct (offsets_from_some true name ps 0 I) as [off [t O]].
+  destruct (layout_bin_aux e name ps vals [] off t R O) as [w [F G]]. cbn [app] in G.
+  unfold offsets. rewrite O. cbn [option_map].
+  eexists _, t, w. split; [reflexivity|]. split; [reflexivity|]. split; [exact F|].
+  unfold read_bin_row. cbn [b_ty b_offs]. destruct (vertex_ty_ok t); [|reflexivity].
+  rewrite mapR_cons. rewrite G. cbn [of_opt rbind]. unfold mesh_value.
+  destruct (conv t w); reflexivity.
+Qed.
+
+(* ascii: the scalar reader returns the float64 the token denotes (never divided by 255: the pinned behaviour
+   behind the known finding ply:ascii-uchar-scalar-raw) *)
+Lemma scalar_reader_ascii attr name (ps : vprops) vals :
+  length vals = length ps -> In name (names ps) ->
+  exists b t w, build_v1 false attr name (scalars ps) = Ok (Some b) /\ b_attr b = attr /\
+    field_word ps vals name = Some (t, w) /\
+    read_ascii_row b (enc_record_ascii (map fst ps) vals) = of_opt EDeclared (option_map (fun v => [v]) (tok_f64 (tok_of_word t w))).
+Proof.
+  intros L I. rewrite build_v1_spec.
+  destruct (offsets_from_some false name ps 0 I) as [off [t O]].
+  destruct (layout_ascii_aux name ps vals [] off t L O) as [w [F G]]. cbn [app] in G.
+  unfold offsets. rewrite O. cbn [option_map].
+  eexists _, t, w. split; [reflexivity|]. split; [reflexivity|]. split; [exact F|].
+  unfold read_ascii_row. cbn [b_ty b_offs b_v1]. rewrite mapR_cons, G. cbn [of_opt rbind negb andb].
+  destruct (tok_f64 (tok_of_word t w)); reflexivity.
+Qed.
+
+(* for int, float and double the ascii token denotes exactly the value the binary reader computes *)
+Lemma tok_value_agrees t w : t = Int \/ t = Float \/ t = Double ->
+  mesh_value t w = of_opt EDeclared (tok_f64 (tok_of_word t w)).
+Proof. intros [->|[->| ->]]; reflexivity. Qed.
+
+(* ================= vertex i is record i ================= *)
+Definition row_bin (e : endian) (bs : list built) (buf : list N) : result (list (list N)) :=
+  mapR (fun b => read_bin_row e b buf) bs.
+Definition row_ascii (bs : list built) (line : list tok) : result (list (list N)) :=
+  mapR (fun b => read_ascii_row b line) bs.
+
+Lemma read_vertices_bin_records e bs size : forall (bufs : list (list N)) rows rest,
+  Forall (fun buf => length buf = size) bufs ->
+  mapR (row_bin e bs) bufs = Ok rows ->
+  read_vertices_bin e bs size (length bufs) (concat bufs ++ rest) = Ok (rows, rest).
+Proof.
+  induction bufs as [|buf bufs IH]; intros rows rest F M.
+  - injection M as <-. reflexivity.
+  - inversion F as [|? ? L F']; subst.
+    rewrite mapR_cons in M. destruct (row_bin e bs buf) as [row|] eqn:Rb; [|discriminate].
+    cbn [rbind] in M. destruct (mapR (row_bin e bs) bufs) as [rows'|] eqn:Mr; [|discriminate].
+    cbn [rbind] in M. injection M as <-.
+    cbn [length concat read_vertices_bin]. rewrite <- app_assoc.
+    rewrite (take_app_exact buf (concat bufs ++ rest)) by reflexivity.
+    cbn [of_opt rbind]. fold (row_bin e bs buf). rewrite Rb. cbn [rbind].
+    rewrite (IH rows' rest F' eq_refl). reflexivity.
+Qed.
+
+Lemma flat_map_concat_map {A B} (f : A -> list B) l : flat_map f l = concat (map f l).
+Proof. induction l; simpl; congruence. Qed.
+
+(* binary: reading n records from the encoded vertex block applies the readers to record i for row i, and
+   leaves exactly what follows the block *)
+Theorem vertex_i_is_record_i_bin_proof : forall e (ps : vprops) (recs : list (list N)) bs rest rows,
+  Forall (record_ok ps) recs ->
+  mapR (fun rec => row_bin e bs (enc_record_bin e (map fst ps) rec)) recs = Ok rows ->
+  read_vertices_bin e bs (record_size (scalars ps)) (length recs) (encode_vertices_bin e ps recs ++ rest) = Ok (rows, rest) /\
+  forall i rec, nth_error recs i = Some rec ->
+    exists row, nth_error rows i = Some row /\ row_bin e bs (enc_record_bin e (map fst ps) rec) = Ok row.
+Proof.
+  intros e ps recs bs rest rows F M. split.
+  - unfold encode_vertices_bin. rewrite flat_map_concat_map.
+    rewrite <- (map_length (enc_record_bin e (map fst ps)) recs).
+    apply read_vertices_bin_records.
+    + apply Forall_forall. intros buf I. apply in_map_iff in I. destruct I as [rec [<- I]].
+      apply enc_record_bin_length, record_ok_length. eapply Forall_forall in F; eauto.
+    + rewrite mapR_map. exact M.
+  - intros i rec N. eapply mapR_nth in M; eauto.
+Qed.
+
+Lemma read_vertices_ascii_records bs np : forall (lines : list (list tok)) rows rest,
+  Forall (fun l => l <> [] /\ (np <= length l)%nat) lines ->
+  mapR (row_ascii bs) lines = Ok rows ->
+  read_vertices_ascii bs np (lines ++ rest) (length lines) = Ok (rows, rest).
+Proof.
+  induction lines as [|l lines IH]; intros rows rest F M.
+  - injection M as <-. cbn [app length]. destruct rest; reflexivity.
+  - inversion F as [|? ? [Hne Hlen] F']; subst.
+    rewrite mapR_cons in M. destruct (row_ascii bs l) as [row|] eqn:Rb; [|discriminate].
+    cbn [rbind] in M. destruct (mapR (row_ascii bs) lines) as [rows'|] eqn:Mr; [|discriminate].
+    cbn [rbind] in M. injection M as <-.
+    cbn [length app read_vertices_ascii].
+    destruct l as [|tk l]; [congruence|].
+    assert (E : (length (tk :: l) <? np)%nat = false) by (apply Nat.ltb_ge; exact Hlen).
+    rewrite E. fold (row_ascii bs (tk :: l)). rewrite Rb. cbn [rbind].
+    rewrite (IH rows' rest F' eq_refl). reflexivity.
+Qed.
+
+(* ascii: the same for lines of tokens (a record of a non-empty property list is a non-empty line) *)
+Theorem vertex_i_is_record_i_ascii_proof : forall (ps : vprops) (recs : list (list N)) bs rest rows,
+  ps <> [] -> Forall (fun rec => length rec = length ps) recs ->
+  mapR (fun rec => row_ascii bs (enc_record_ascii (map fst ps) rec)) recs = Ok rows ->
+  read_vertices_ascii bs (length ps) (encode_vertices_ascii ps recs ++ rest) (length recs) = Ok (rows, rest) /\
+  forall i rec, nth_error recs i = Some rec ->
+    exists row, nth_error rows i = Some row /\ row_ascii bs (enc_record_ascii (map fst ps) rec) = Ok row.
+Proof.
+  intros ps recs bs rest rows NE F M. split.
+  - unfold encode_vertices_ascii.
+    rewrite <- (map_length (enc_record_ascii (map fst ps)) recs).
+    apply read_vertices_ascii_records.
+    + apply Forall_forall. intros l I. apply in_map_iff in I. destruct I as [rec [<- I]].
+      eapply Forall_forall in F; eauto. cbv beta in F.
+      pose proof (enc_record_ascii_length ps rec F) as L. split; [|lia].
+      intros E. rewrite E in L. destruct ps; [congruence|discriminate].
+    + rewrite mapR_map. exact M.
+  - intros i rec N. eapply mapR_nth in M; eauto.
+Qed.
+
+(* ================= header noise ================= *)
+Definition res_rel (r1 r2 : result hstate) : Prop :=
+  match r1, r2 with
+  | Ok a, Ok b => hs_elems a = hs_elems b
+  | Err e1, Err e2 => e1 = e2
+  | _, _ => False
+  end.
+
+Lemma hstep_noise l st : noise_line l ->
+  is_end l = false /\ exists st', hstep l st = Ok st' /\ hs_elems st' = hs_elems st.
+Proof.
+  destruct l as [|k rest]; intros Nz.
+  - split; [reflexivity|]. exists st. split; reflexivity.
+  - destruct Nz as [-> | ->].
+    + split; [destruct rest; reflexivity|]. eexists. split; reflexivity.
+    + split; [destruct rest; reflexivity|]. exists st. split; reflexivity.
+Qed.
+
+Lemma hstep_elems l st1 st2 : hs_elems st1 = hs_elems st2 -> res_rel (hstep l st1) (hstep l st2).
+Proof.
+  intros E. destruct l as [|k rest]; [exact E|]. cbn [hstep].
+  destruct (seqb k "comment"); [exact E|].
+  destruct (seqb k "element").
+  - destruct rest as [|nm [|cnt [|? ?]]]; try reflexivity.
+    destruct (parse_dec cnt); cbn [of_opt rbind res_rel hs_elems]; [rewrite E|]; reflexivity.
+  - destruct (seqb k "property"); [|exact E].
+    destruct (parse_property (k :: rest)); cbn [rbind]; [|reflexivity].
+    unfold add_prop. rewrite E. destruct (hs_elems st2); reflexivity.
+Qed.
+
+Lemma hloop_noise a b : with_noise a b -> forall st1 st2, hs_elems st1 = hs_elems st2 ->
+  res_rel (hloop a st1) (hloop b st2).
+Proof.
+  induction 1 as [|l a b W IH|l a b Nz W IH]; intros st1 st2 E.
+  - reflexivity.
+  - cbn [hloop]. destruct (is_end l); [exact E|].
+    pose proof (hstep_elems l st1 st2 E) as R.
+    destruct (hstep l st1), (hstep l st2); cbn [res_rel] in R; try contradiction; cbn [rbind].
+    + apply IH, R.
+    + exact R.
+  - cbn [hloop]. destruct (hstep_noise l st2 Nz) as [En [st' [Hs He]]].
+    rewrite En, Hs. cbn [rbind]. apply IH. congruence.
+Qed.
+
+(* HEADER NOISE.  Comment lines, obj_info lines and blank lines inserted anywhere between the format line and
+   end_header do not change what the header declares (format and elements with their properties in order). *)
+Theorem header_noise_ignored_proof : forall magic fl body noisy,
+  fl <> [] -> with_noise body noisy ->
+  strip_comments (parse_header (magic :: fl :: noisy)) = strip_comments (parse_header (magic :: fl :: body)).
+Proof.
+  intros magic fl body noisy NE W. unfold parse_header.
+  destruct magic as [|m [|? ?]]; try reflexivity.
+  destruct (negb (seqb m "ply")); [reflexivity|].
+  destruct fl as [|f0 fr]; [congruence|]. cbn [skip_blank].
+  destruct (parse_format (f0 :: fr)); cbn [rbind]; [|reflexivity].
+  pose proof (hloop_noise body noisy W {| hs_elems := []; hs_comments := [] |} {| hs_elems := []; hs_comments := [] |} eq_refl) as R.
+  destruct (hloop body _), (hloop noisy _); cbn [res_rel] in R; try contradiction; cbn [rbind strip_comments h_fmt h_elems].
+  - rewrite R. reflexivity.
+  - congruence.
+Qed.
+
+(* type-name aliases: every pair of spellings denotes one type, in any letter case of the first *)
+Lemma aliases_same_type_proof : Forall (fun p => same_type (fst p) (snd p)) alias_pairs.
+Proof. repeat constructor; cbn [fst snd]; eexists; split; reflexivity. Qed.
+
+(* a property line spelled with an alias is the same declaration *)
+Lemma alias_lines_agree_proof : Forall (fun p => forall name st,
+    hstep ["property"; fst p; name] st = hstep ["property"; snd p; name] st /\
+    (forall lt, hstep ["property"; "list"; fst p; lt; name] st = hstep ["property"; "list"; snd p; lt; name] st) /\
+    (forall ct, hstep ["property"; "list"; ct; fst p; name] st = hstep ["property"; "list"; ct; snd p; name] st))%string alias_pairs.
+Proof.
+  unfold alias_pairs.
+  repeat (apply Forall_cons;
+    [cbn [fst snd]; intros name st; repeat split; intros;
+     unfold hstep, parse_property, parse_sty; cbn; reflexivity|]).
+  apply Forall_nil.
+Qed.
+
+(* ================= list properties (faces) ================= *)
+Lemma firstn_app_exact {A} (a b : list A) : firstn (length a) (a ++ b) = a.
+Proof. induction a; simpl; congruence. Qed.
+
+Lemma chunks_fuel_concat {A} k : (0 < k)%nat -> forall (cs : list (list A)) fuel,
+  Forall (fun c => length c = k) cs -> (length cs <= fuel)%nat -> chunks_fuel fuel k (concat cs) = cs.
+Proof.
+  intros Hk. induction cs as [|c cs IH]; intros fuel F L.
+  - destruct fuel; reflexivity.
+  - inversion F as [|? ? Lc F']; subst. destruct fuel as [|fuel]; [simpl in L; lia|].
+    cbn [concat]. destruct c as [|x c]; [simpl in Hk; lia|].
+    cbn [chunks_fuel app]. change (x :: c ++ concat cs) with ((x :: c) ++ concat cs).
+    rewrite firstn_app_exact, skipn_app_length. f_equal. apply IH; [exact F'|simpl in L; lia].
+Qed.
+
+Lemma concat_length_const {A} k (cs : list (list A)) :
+  Forall (fun c => length c = k) cs -> length (concat cs) = (length cs * k)%nat.
+Proof. induction 1 as [|c cs Lc F IH]; [reflexivity|]. cbn [concat length]. rewrite app_length, IH, Lc. lia. Qed.
+
+Lemma sty_size_pos t : (0 < sty_size t)%nat.
+Proof. destruct t; simpl; lia. Qed.
+
+Lemma payload_length e lt ws : length (flat_map (enc_word e lt) ws) = (length ws * sty_size lt)%nat.
+Proof.
+  rewrite flat_map_concat_map, (concat_length_const (sty_size lt)), map_length; [reflexivity|].
+  apply Forall_forall. intros c I. apply in_map_iff in I. destruct I as [w [<- _]]. apply enc_word_length.
+Qed.
+
+Lemma words_of_enc e lt ws : Forall (word_fits lt) ws -> words_of e lt (flat_map (enc_word e lt) ws) = Ok ws.
+Proof.
+  intros F. unfold words_of, chunks. rewrite flat_map_concat_map.
+  assert (Fl : Forall (fun c => length c = sty_size lt) (map (enc_word e lt) ws)).
+  { apply Forall_forall. intros c I. apply in_map_iff in I. destruct I as [w [<- _]]. apply enc_word_length. }
+  rewrite (chunks_fuel_concat (sty_size lt) (sty_size_pos lt)); [|exact Fl|].
+  - rewrite mapR_map. induction F as [|w ws Hw F IH]; [reflexivity|].
+    rewrite mapR_cons, dec_enc_word by exact Hw. cbn [of_opt rbind].
+    rewrite IH; [reflexivity|]. inversion Fl; assumption.
+  - rewrite (concat_length_const (sty_size lt)) by exact Fl. pose proof (sty_size_pos lt). nia.
+Qed.
+
+(* COUNT TYPES.  uchar, int and uint list counts are read back as the number written, in both byte orders *)
+Lemma read_count_enc_proof e ct n rest :
+  count_ty_ok ct = true -> word_fits ct n -> n < 2 ^ 31 ->
+  read_count e ct (enc_word e ct n ++ rest) = Ok (Z.of_N n, rest).
+Proof.
+  intros C Hf Hn. destruct ct; try discriminate C; unfold read_count.
+  - destruct e; reflexivity.
+  - rewrite (take_app_exact (enc_word e Int n) rest) by (symmetry; apply enc_word_length).
+    cbn [of_opt rbind]. rewrite dec_enc_word by exact Hf. cbn [of_opt rbind].
+    unfold signed32. replace (n <? 2 ^ 31) with true by (symmetry; apply N.ltb_lt; exact Hn). reflexivity.
+  - change (enc_word e UInt n) with (enc_word e Int n).
+    rewrite (take_app_exact (enc_word e Int n) rest) by (symmetry; apply enc_word_length).
+    cbn [of_opt rbind]. rewrite dec_enc_word by exact Hf. cbn [of_opt rbind].
+    unfold signed32. replace (n <? 2 ^ 31) with true by (symmetry; apply N.ltb_lt; exact Hn). reflexivity.
+Qed.
+
+(* one list property: the binary list reader consumes exactly the encoded list and updates the buffers as
+   [face_step] says *)
+Lemma face_bin_cons_enc e ct lt rs k ip tp ws rest st :
+  list_ok (ct, lt) ws ->
+  face_bin e ((ct, lt) :: rs) k ip tp (enc_list_bin e ct lt ws ++ rest) st =
+  face_bin e rs (S k) ip tp rest (face_step k ip tp lt ws st).
+Proof.
+  intros [C [Hf [Hn Fw]]]. cbn [fst snd] in *.
+  cbn [face_bin]. unfold enc_list_bin. rewrite <- app_assoc.
+  rewrite (read_count_enc_proof e ct _ _ C Hf Hn). cbn [rbind].
+  rewrite nat_N_Z.
+  replace (Z.of_nat (length ws) <? 0)%Z with false by (symmetry; apply Z.ltb_ge; lia).
+  rewrite Nat2Z.id.
+  rewrite (take_app_exact (flat_map (enc_word e lt) ws) rest) by (symmetry; apply payload_length).
+  cbn [of_opt rbind]. unfold face_step.
+  destruct (Nat.eqb k ip), (4 <? Z.of_nat (length ws))%Z, (nat_eqb_opt tp k), (8 <? Z.of_nat (length ws))%Z, lt;
+    cbn [rbind]; try rewrite (words_of_enc e _ ws Fw); cbn [rbind fs_ibuf fs_tbuf fs_points]; reflexivity.
+Qed.
+
+Lemma face_bin_enc e ip tp : forall rs f k st rest,
+  Forall2 list_ok rs f ->
+  face_bin e rs k ip tp (enc_face_bin e rs f ++ rest) st = Ok (face_fold rs f k ip tp st, rest).
+Proof.
+  induction rs as [|[ct lt] rs IH]; intros f k st rest F2.
+  - inversion F2; subst. reflexivity.
+  - inversion F2 as [|? ws ? f' L F2']; subst.
+    unfold enc_face_bin. cbn [combine flat_map]. rewrite <- app_assoc.
+    rewrite face_bin_cons_enc by exact L. cbn [face_fold]. apply IH, F2'.
+Qed.
+
+(* without a texcoord property only the index property changes the state *)
+Lemma face_step_other k ip lt ws st : k <> ip -> face_step k ip None lt ws st = st.
+Proof. intros Hne. unfold face_step. apply Nat.eqb_neq in Hne. rewrite Hne. reflexivity. Qed.
+
+Lemma face_fold_after ip : forall rs f k st, (ip < k)%nat -> face_fold rs f k ip None st = st.
+Proof.
+  induction rs as [|[ct lt] rs IH]; intros f k st Hk; [reflexivity|].
+  destruct f as [|ws f]; [reflexivity|]. cbn [face_fold].
+  rewrite face_step_other by lia. apply IH. lia.
+Qed.
+
+Lemma face_fold_index ip : forall rs f k st ct lt,
+  (k <= ip)%nat -> length f = length rs ->
+  nth_error rs (ip - k) = Some (ct, lt) ->
+  face_fold rs f k ip None st = face_step ip ip None lt (nth (ip - k) f []) st.
+Proof.
+  induction rs as [|[ct0 lt0] rs IH]; intros f k st ct lt Hk L N.
+  - destruct (ip - k)%nat; discriminate.
+  - destruct f as [|ws f]; [discriminate|]. cbn [face_fold].
+    destruct (Nat.eq_dec k ip) as [->|Hne].
+    + rewrite Nat.sub_diag in *. cbn [nth_error nth] in *. injection N as -> ->.
+      apply face_fold_after. lia.
+    + rewrite face_step_other by exact Hne.
+      replace (ip - k)%nat with (S (ip - S k)) in * by lia. cbn [nth_error nth] in *.
+      apply (IH f (S k) st ct lt); [lia | simpl in L; lia | exact N].
+Qed.
+
+(* QUAD FAN at the level of one face: index list of 3 -> that triangle, of 4 -> (0,1,2),(0,2,3) *)
+Lemma face_out_fan lt ws st :
+  index_ty_ok lt = true -> (length ws = 3%nat \/ length ws = 4%nat) ->
+  face_out false (face_step 0 0 None lt ws st) = Ok (fan_tris (map signed32 ws), []).
+Proof.
+  intros I [L|L].
+  - destruct ws as [|a [|b [|c [|? ?]]]]; try discriminate L.
+    destruct lt; try discriminate I; reflexivity.
+  - destruct ws as [|a [|b [|c [|d [|? ?]]]]]; try discriminate L.
+    destruct lt; try discriminate I; reflexivity.
+Qed.
+Lemma face_step_ip ip lt ws st : face_step ip ip None lt ws st = face_step 0 0 None lt ws st.
+Proof. unfold face_step. rewrite !Nat.eqb_refl. reflexivity. Qed.
+
+Lemma Forall2_length' {A B} (R : A -> B -> Prop) l1 l2 : Forall2 R l1 l2 -> length l2 = length l1.
+Proof. induction 1; simpl; auto. Qed.
+
+Theorem quad_fan_bin_proof : forall e rs ip ct lt (fs : list (list (list N))) rest st,
+  nth_error rs ip = Some (ct, lt) -> index_ty_ok lt = true ->
+  Forall (face_ok rs ip) fs ->
+  faces_bin e rs ip None (flat_map (enc_face_bin e rs) fs ++ rest) (length fs) st =
+  Ok (flat_map (fun f => fan_tris (map signed32 (nth ip f []))) fs, []).
+Proof.
+  intros e rs ip ct lt fs rest st N I F. revert st.
+  induction F as [|f fs [F2 L34] F IH]; intros st; [reflexivity|].
+  cbn [length flat_map faces_bin]. rewrite <- app_assoc.
+  rewrite (face_bin_enc e ip None rs f 0 st _ F2). cbn [rbind].
+  rewrite (face_fold_index ip rs f 0 st ct lt);
+    [|lia|eapply Forall2_length'; eauto|rewrite Nat.sub_0_r; exact N].
+  rewrite Nat.sub_0_r, face_step_ip.
+  rewrite (face_out_fan lt _ st I L34). cbn [rbind].
+  rewrite IH. cbn [rbind]. rewrite app_nil_r. reflexivity.
 Qed.
